@@ -16,7 +16,7 @@ OPTIONS = {
     "thorough": {"max_paths": 1500000, "unit_budget_s": 3300},
 }
 BOUNDS = {
-    "quick": {"raw_bytes": "all byte strings of length <= 6 (server, fresh) / <= 5 (client with a search and an extended operation outstanding)", "envelope": "30 L + L symbolic octets, L <= 5, followed by a valid message; whole, and cut after every octet of the envelope", "window": "2 symbolic octets at every interior offset of 11 seed messages, followed by a valid message"},
+    "quick": {"raw_bytes": "all byte strings of length <= 6 (server, fresh) / <= 5 (client with a search and an extended operation outstanding)", "envelope": "30 L + L symbolic octets, L <= 5, followed by a valid message; whole, and cut after every octet of the envelope", "window": "2 symbolic octets at every interior offset of 11 seed messages, followed by a valid message", "three chunks": "every pair of cut positions over 4 two-message streams with symbolic contents"},
     "thorough": {"raw_bytes": "length <= 8 / <= 7", "envelope": "L <= 7", "window": "2 and 3 symbolic octets at every interior offset of all 17 seeds"},
 }
 OUTSIDE = ["interiors longer than the envelope bound that are not seed-derived", "more than two chunks (C02 one-step lemma)"]
@@ -44,6 +44,12 @@ def units(tier):
                 if quick and cut not in (1, 2, L + 1):
                     continue
                 us.append({"name": f"env_{side}_L{L}_cut{cut}", "shape": {"kind": "env", "side": side, "pre": pre, "L": L, "follow": follow, "cut": cut}})
+    # three chunks over two-message streams (long then short, short then long): a delivery can end
+    # inside the second message after the buffered path has just completed the first one
+    from checks import c02
+
+    for name in c02.SHORT_STREAMS:
+        us.append({"name": f"stream2_{name}", "shape": {"kind": "stream2", "stream": name, "side": c02.STREAM_SIDE[name], "pre": "search" if c02.STREAM_SIDE[name] == "client" else "fresh", "cut": None}})
     lens = _seed_lengths()
     for name, ln in lens.items():
         if quick and name not in QUICK_SEEDS:
@@ -61,8 +67,35 @@ def units(tier):
     return us
 
 
+def _stream2(ctx, shape):
+    from checks import c02, msgs
+
+    M = ctx.L.messages
+    side, pre = shape["side"], shape["pre"]
+    data = b""
+    for i, sk in enumerate(c02.STREAMS[shape["stream"]]):
+        mid = (1 if sk["kind"].startswith("search") else 2) if side == "client" else i + 1
+        data = data + msgs.build(c02._renamed(ctx, f"m{i}."), dict(sk), mid=mid).pack(M.PackingOptions())
+    n = len(data)
+    for a in range(0, n + 1):
+        for b in range(a, n + 1):
+            sess = common.make_session(ctx, side, pre)
+            delivered = b""
+            returned = 0
+            for ch in (data[:a], data[a:b], data[b:]):
+                delivered = delivered + ch
+                try:
+                    got = sess.receive(ch)
+                except Exception:  # noqa: BLE001
+                    break
+                returned += len(got)
+                common.check_accounting(ctx, delivered, returned, "ok")
+
+
 def body(ctx, shape):
     side, pre, kind = shape["side"], shape["pre"], shape["kind"]
+    if kind == "stream2":
+        return _stream2(ctx, shape)
     if kind == "raw":
         data = ctx.bytes("data", shape["n"])
         if shape.get("part") is not None and shape["n"] > 0:
